@@ -112,6 +112,11 @@ def program_job(arg):
             add("after_%d_other_evaluations" % k, _seg(p, R, "local", sd("pre%d" % k), pre=others[:k]))
         pe, _ = gen.e_set_const(p, p["entry"])
         add("after_edit_and_revert_same_process", _seg(p, R, "local", sd("er"), edit_revert=pe))
+        # comment-only edits (the compiled code does not change) of every function, then back to the original text
+        pc = p
+        for fid in gen.reach(p, p["entry"]):
+            pc, _ = gen.e_comment(pc, fid)
+        add("after_comment_edit_and_revert_same_process", _seg(p, R, "local", sd("cr"), edit_revert=pc))
         fix = dict((v[0], v) for v in variants)
         # the cwd=pkgdir variant needs the package directory to exist before chdir: write happens in-process, so chdir to root instead
         fix["cwd=pkgdir"][1]["chdir"] = R
